@@ -16,11 +16,32 @@ import (
 type boolTracker struct {
 	g    *Graph
 	vars []*types.Var
+	// atoms are side-effect free boolean leaf expressions tracked by their printed form
+	// (e.g. "len(x) > 0"); their value is forgotten when a variable they mention is assigned.
+	atoms    []string
+	atomVars [][]types.Object
 }
 
 func (g *Graph) trackBools(vars ...*types.Var) *boolTracker { return &boolTracker{g: g, vars: vars} }
 
-func (bt *boolTracker) initial() string { return strings.Repeat("U", len(bt.vars)) }
+// trackAtom adds a leaf expression to the tracked state and returns its index in the state.
+func (bt *boolTracker) trackAtom(e ast.Expr) int {
+	info := bt.g.F.Pkg.TypesInfo
+	var vs []types.Object
+	ast.Inspect(e, func(n ast.Node) bool {
+		if id, ok := n.(*ast.Ident); ok {
+			if v, ok := info.Uses[id].(*types.Var); ok {
+				vs = append(vs, v)
+			}
+		}
+		return true
+	})
+	bt.atoms = append(bt.atoms, types.ExprString(e))
+	bt.atomVars = append(bt.atomVars, vs)
+	return len(bt.vars) + len(bt.atoms) - 1
+}
+
+func (bt *boolTracker) initial() string { return strings.Repeat("U", len(bt.vars)+len(bt.atoms)) }
 
 func (bt *boolTracker) idx(o types.Object) int {
 	for i, v := range bt.vars {
@@ -46,6 +67,17 @@ func (bt *boolTracker) effect(n *GNode, s string) string {
 	as, ok := n.Ast.(*ast.AssignStmt)
 	if !ok {
 		return s
+	}
+	for _, l := range as.Lhs {
+		if o, _ := lhsObject(info, l); o != nil {
+			for ai, vs := range bt.atomVars {
+				for _, v := range vs {
+					if v == o {
+						s = setAt(s, len(bt.vars)+ai, 'U')
+					}
+				}
+			}
+		}
 	}
 	for i, l := range as.Lhs {
 		id, ok := ast.Unparen(l).(*ast.Ident)
@@ -97,11 +129,18 @@ func (bt *boolTracker) branch(n *GNode, e Edge, s string) (string, bool) {
 		neg = !neg
 		ex = ast.Unparen(u.X)
 	}
-	id, ok := ex.(*ast.Ident)
-	if !ok {
-		return s, true
+	k := -1
+	if id, ok := ex.(*ast.Ident); ok {
+		k = bt.idx(info.Uses[id])
 	}
-	k := bt.idx(info.Uses[id])
+	if k < 0 {
+		str := types.ExprString(ex)
+		for ai, a := range bt.atoms {
+			if a == str {
+				k = len(bt.vars) + ai
+			}
+		}
+	}
 	if k < 0 {
 		return s, true
 	}
@@ -135,6 +174,17 @@ type AbsReach struct {
 	Seen   map[absKey]bool
 	parent map[absKey]absKey
 	nodes  map[int]bool
+}
+
+// StatesAt returns the abstract states in which node id was reached.
+func (r *AbsReach) StatesAt(id int) []string {
+	var out []string
+	for k := range r.Seen {
+		if k.id == id {
+			out = append(out, k.s)
+		}
+	}
+	return out
 }
 
 // ReachAbs explores (node,state) pairs from the start nodes with the initial state.
